@@ -20,6 +20,7 @@ RULE = ('Hypothesis point sets (2-40 points) from labelled families: clusters, s
         'or a group straddling the seam or within 5 deg of a pole.')
 RULE += '  Also: linking lengths 1e-7 .. 87 deg and exactly 0 (bit-identical positions), points exactly on / 1 ulp from a pole, slice-edge family, wide strips with > 32767 RA chunks, integer coordinate arrays.'
 RULE += ' Round 5: RA exactly 360.0.'
+RULE += ' Round 9: a third of the cases are preceded by a call on the same array objects with 0.02-2 x the linking length and the same chunk size (scan over the length); sub-check seam_ulp_sweep.'
 ASSUMPTIONS = ['chunksize >= 4 x linking length is enforced by spheregroup itself; the generator also bounds the grid to <= 2e4 cells',
                'separations within 1e-7 relative of the linking length may link or not',
                '|Dec| <= 90 including points exactly on a pole (families pole-exact / pole-near), RA in [0,360] (360.0 itself is generated: the same meridian as 0)', 'linking lengths from 1e-7 deg (sub-milliarcsecond) up; the reference separations are exact to ~1e-16 rad, i.e. 1e-7 relative at 1e-7 deg, inside the band']
@@ -222,7 +223,10 @@ def case_strategy(draw):
         cs = None
     eff = max(4.0 * L, 0.1) if cs is None else cs * L
     safe = G.safe_chunksize(pts['ra1'], pts['dec1'], eff)
-    return dict(family=pts['family'], ra=pts['ra1'], dec=pts['dec1'], L=L, chunksize=None if (cs is None and safe == eff) else safe)
+    prior = draw(st.sampled_from([None, None, None, None, 0.05, 0.2, 0.5, 2.0, 0.02]))
+    if prior is not None and prior > 1:
+        safe = G.safe_chunksize(pts['ra1'], pts['dec1'], max(eff, 4.0 * prior * L))
+    return dict(family=pts['family'], ra=pts['ra1'], dec=pts['dec1'], L=L, chunksize=None if (cs is None and safe == eff) else safe, prior=prior)
 
 
 def lattice_cases(tier):
@@ -238,6 +242,23 @@ def lattice_cases(tier):
                        chunksize=None if cs is None else cs * L)
 
 
+def seam_ulp_cases(tier):
+    """rings that wrap around the sky (no RA offset avoids the seam, the slices embrace 0..360) holding the largest double below 360
+    next to points just across the seam, for every number of RA chunks from 5 to ~420 (and 420-2000 in steps for the thorough tier):
+    the chunk index of that point is floor((ra - 0) * nRa / 360) and must stay below nRa whatever nRa is"""
+    below = float(np.nextafter(360.0, 0.0))
+    ks = list(range(5, 421)) + (list(range(421, 2000, 7)) if tier == 'thorough' else list(range(421, 1200, 37)))
+    for dec0 in (0.0, 40.0):
+        cosd = math.cos(math.radians(dec0))
+        for k in ks:
+            cs = 360.0 * cosd / (k + 0.5)
+            L = min(0.01, cs / 5.0)
+            for last, first in ((below, 0.25 * L / cosd), (360.0 - 1e-13, 0.0)):
+                ras = [last, first, 60.0, 120.0, 180.0, 240.0, 300.0, 300.0 + 0.6 * L / cosd, 240.0 + 2.0 * L / cosd]
+                decs = [dec0, dec0 + 0.3 * L, dec0, dec0 - 0.2 * L, dec0, dec0 + 0.1 * L, dec0, dec0, dec0]
+                yield dict(family='seam-ulp', ra=ras, dec=decs, L=L, chunksize=cs)
+
+
 def body(case):
     from pydl.pydlutils.spheregroup import spheregroup
     ra, dec = np.array(case['ra']), np.array(case['dec'])
@@ -249,7 +270,15 @@ def body(case):
     same = (ra[:, None] == ra[None, :]) & (dec[:, None] == dec[None, :])      # bit-identical positions are 0 apart: linked for every L >= 0
     lo = components(~(S > L * (1 - G.REL) - G.ABS) | same)      # links that certainly exist
     hi = components(~G.above(S, L))                        # links that may exist
-    ing, mult, first, nxt = call(spheregroup, ra, dec, L, chunksize=case['chunksize'])
+    cs_used = case['chunksize']
+    if case.get('prior'):
+        # a scan over the linking length: an earlier call on the very same array objects with another length and the same chunk size
+        # must not influence this one
+        if cs_used is None:
+            cs_used = G.safe_chunksize(ra, dec, max(4.0 * max(L, case['prior'] * L), 0.1))
+        call(spheregroup, ra, dec, case['prior'] * L, chunksize=cs_used)
+        note_label('after-a-call-with-another-length')
+    ing, mult, first, nxt = call(spheregroup, ra, dec, L, chunksize=cs_used)
     with judge('partition'):
         ing = [int(x) for x in ing]
         check(len(ing) == n and len(mult) == n and len(first) == n and len(nxt) == n, 'wrong-lengths')
@@ -285,7 +314,7 @@ def body(case):
         note_label('group>=3')
     try:
         from pydl.pydlutils.spheregroup import chunks
-        cs = case['chunksize']
+        cs = cs_used
         cs = max(4.0 * L, 0.1) if cs is None else max(cs, 4.0 * L)
         ch = chunks(ra, dec, cs)
         for g in range(ng):
@@ -305,7 +334,7 @@ def body(case):
 
 
 def classify(case):
-    return ['family:' + case['family'], 'chunksize:' + ('default' if case['chunksize'] is None else 'explicit'),
+    return ['family:' + case['family'], 'prior-call:%s' % case.get('prior'), 'chunksize:' + ('default' if case['chunksize'] is None else 'explicit'),
             'n:%d' % (10 * (len(case['ra']) // 10)), 'L:1e%d' % math.floor(math.log10(case['L'])) if case['L'] > 0 else 'L:0']
 
 
@@ -383,6 +412,9 @@ SUBCHECKS = [
     SubCheck('many_points', many_body, strategy=many_case, classify=lambda c: ['second:%s' % c['second']], nontrivial=lambda c, l: 'points>32767' in l,
              quick=3, thorough=48, shards=(3, 16), floor=0.0,
              doc='33 000 - 40 000 points (more provisional labels than a 16-bit counter holds): partition known by construction'),
+    SubCheck('seam_ulp_sweep', body, kind='exhaustive', cases=seam_ulp_cases, classify=classify, nontrivial=lambda c, l: 'group-straddles-seam' in l,
+             shards=(16, 16), floor=0.0,
+             doc='bounded-exhaustive: a ring around the sky with a point 1 ulp below RA 360, for every number of RA chunks 5..420 (+ steps up to 2000)'),
     SubCheck('lattice_subsets', body, kind='exhaustive', cases=lattice_cases, classify=classify, nontrivial=nontrivial,
              shards=(16, 16), floor=0.0,
              doc='bounded-exhaustive: all subsets of a 3x3 lattice (pitch 0.9/1.1 L) at seam, chunk-corner and polar anchors'),
